@@ -33,7 +33,7 @@ Definition process_keyevent_prefix (e : med) (ev : keyevent) : outcome (med * be
    result), Left: the key is Ignored but the commit string "x" is still reported *)
 Lemma C02_stale_commit_refuted_prefix :
   exists e1 e2 e3,
-    process_keyevent_prefix (m_set_options e0 (english default_options)) (key kc_X 120%N) = Ok (e1, BCommit) /\
+    process_keyevent_prefix (ed_set_options std_ops e0 (english default_options)) (key kc_X 120%N) = Ok (e1, BCommit) /\
     m_start_selecting e1 = Ok (e2, false) /\
     process_keyevent_prefix e2 (key kc_Left 65533%N) = Ok (e3, BIgnore) /\
     commit_buf (sh e3) = [120%N].
@@ -42,7 +42,7 @@ Proof. vm_compute. do 3 eexists. repeat split. Qed.
 (* the same history on the model of the fixed code reports no commit string *)
 Lemma C02_stale_commit_fixed :
   exists e1 e2 e3,
-    m_key conv_single (m_set_options e0 (english default_options)) (key kc_X 120%N) = Ok (e1, BCommit) /\
+    m_key conv_single (ed_set_options std_ops e0 (english default_options)) (key kc_X 120%N) = Ok (e1, BCommit) /\
     m_start_selecting e1 = Ok (e2, false) /\
     m_key conv_single e2 (key kc_Left 65533%N) = Ok (e3, BIgnore) /\
     commit_buf (sh e3) = [].
